@@ -42,7 +42,7 @@ m = {
     "setup_cmd": "scripts/build.sh",
     "hooks": {
         "guard": "PIKA_VERIF_SIM",
-        "enable": "scripts/build.sh builds /repo's working tree with clang-14, atomics-only TSan instrumentation and -DPIKA_VERIF_SIM into "
+        "enable": "scripts/build.sh builds /repo's working tree with clang-14, atomics-only TSan instrumentation, -DPIKA_VERIF_SIM and -DMOODYCAMEL_CPP11_THREAD_LOCAL_SUPPORTED (the queue's thread-exit listener, compiled in by default under gcc) into "
                   "/verif/build/pika-sim and links it against /verif/build/libpikasim.so; no source file in /repo tests the guard: all seams are "
                   "compiler/linker level (no source hooks)",
         "baseline_off_cmd": "scripts/baseline_off.sh",
